@@ -29,12 +29,12 @@ var Properties = []Property{
 		Explain: "Abstract interpretation of NewMnemonicByEntropy and NewMnemonic over a bit-layout domain: in each of the 5 sizes x 10 languages (both entry points) the value returned is strings.Join(a, sep) where a has 3*len/4 elements, each written exactly once, a[p] = list_K[S<11(W-1-p):+11>] with S = checksum bits (top ENT/32 bits of SHA-256(entropy)[0]) below the entropy bits, list_K the canonical list of language K (digest-checked literal, never written), sep U+3000 for Japanese and U+0020 otherwise. The entropy bits are a symbol, so the result holds for all 2^ENT inputs; the loop is summarised by recurrence R1 (X' = X >> 11), not unrolled.",
 		Trusted: []string{axSHA, axBig, axJoin, axTool, axChecker, "BIP39 parameter table and the ten list digests held in the checker"}},
 	{ID: "C02", Title: "Every valid mnemonic validates", Level: "proof",
-		Rules:   []string{"ANCHOR", "L1", "L1n", "T6", "T6n", "T6v", "T5w", "T3", "G1a", "G2a", "G3a", "L2w", "L2", "L3", "L3x", "S2a", "S3", "T2", "T2n", "G4", "G4n", "E1enc", "E1val", "F1"},
+		Rules:   []string{"ANCHOR", "L1", "L1n", "T6", "T6n", "T6v", "T5w", "T3", "T3e", "G1a", "G2a", "G3a", "L2w", "L2", "L3", "L3x", "S2a", "S3", "T2", "T2n", "G4", "G4n", "E1enc", "E1val", "F1"},
 		Floors:  map[string]int{"T3.maps": 10, "L2.contexts": 50, "L1.contexts": 50},
 		Explain: "Composition of discharged premises: the encoder emits word p = list_K[S<11(W-1-p):+11>] (L1); the separator survives NFKD and is what the validator splits on, words are NFKD-stable and contain no separator (T5,T6); the lookup map is the inverse of the same list (T3); W is accepted (G3); the validator rebuilds acc = I[0]..I[W-1] MSB first, hashes exactly ENT/8 bytes Fixed(acc<CS:>, L) (L2w, L2) and returns nil on the equal edge of Cmp(SHA256(..)<top CS bits>, acc<0:CS>) (L3, S2), which after the lookups is the only condition acceptance depends on, every failure exit there being its other edge (L3x); substituting I[p] := S<11(W-1-p):+11> makes both sides the same bits; IsMnemonicValid is CheckMnemonic == nil (S3).",
 		Trusted: []string{axSHA, axBig, axJoin, axNFKD, axOnce, axTool, axChecker}},
 	{ID: "C03", Title: "Validation never accepts an ill-formed or wrong-checksum mnemonic", Level: "proof",
-		Rules:   []string{"ANCHOR", "F1", "G3", "T3", "T5w", "T6v", "L2w", "L2", "L3", "S2a", "S3", "E1val"},
+		Rules:   []string{"ANCHOR", "F1", "G3", "T3", "T3c", "T5w", "T6v", "L2w", "L2", "L3", "S2a", "S3", "E1val"},
 		Floors:  map[string]int{"T3.maps": 10, "L2.contexts": 50, "S2.exits": 100},
 		Explain: "The accept condition is read off the dominators of the only `return nil`: count in {12,15,18,21,24} (exact accept set from the gate analysis), every token found in the map that is the inverse of the language's canonical list, and Cmp == 0 between the top CS bits of SHA-256 over exactly ENT/8 bytes of the recovered entropy and the low CS bits of the token integer. All strings are covered because tokens and lookup results are symbols.",
 		Trusted: []string{axSHA, axBig, axJoin, axNFKD, axOnce, axTool, axChecker}},
@@ -59,7 +59,7 @@ var Properties = []Property{
 		Explain: "The variable read by NewMnemonic is initialised to crypto/rand.Reader; the effect index over every non-test function in every analysed build configuration finds no other writer except explicit swaps (a function storing its own parameter, unreachable from init and from the API); its address never escapes; the encoder consumes exactly the bytes read from it.",
 		Trusted: []string{axTool, axChecker}},
 	{ID: "C08", Title: "The ten word lists are canonical and well-formed", Level: "proof", Exhaustive: true,
-		Rules:   []string{"ANCHOR", "T5w", "T5d", "T2", "T2c", "T3", "T3c", "T1", "E1lst", "W1"},
+		Rules:   []string{"ANCHOR", "T5w", "T5d", "T2", "T2c", "T3", "T3e", "T3c", "T1", "E1lst", "W1"},
 		Floors:  map[string]int{"T5.words": 20480, "T5.lists": 10, "T3.maps": 10, "T1.constants": 10, "T2.contexts": 50},
 		Explain: "All 10 x 2048 words are read from the syntax tree as constants: non-empty, pairwise distinct, free of White_Space and controls, each equal to its own NFKD image, SHA-256 of the list equal to the frozen digest; each list variable is initialiser-only (never written after its declaration, not even from init()); the encoder selects list K for language K and the validator's map K is built as the inverse of that same variable.",
 		Trusted: []string{"list digests frozen in the checker (English = published bip-0039/english.txt digest; the other nine = pinned commit)", axNFKD, axTool, axChecker}},
@@ -94,7 +94,7 @@ var Properties = []Property{
 		Explain: "Every exported function and method of the root package is evaluated in all its contexts (accepted sizes, the rejected class, ten languages and the two intervals of other Language values): every index/slice is in bounds, every integer and big.Int divisor non-zero, every shift count and make size non-negative, FillBytes buffers wide enough, map updates on non-nil maps, every loop a range or a counter moving toward its bound, no panic/log.Fatal/os.Exit/unchecked type assertion, call graph acyclic. Necessary-and-here-sufficient conditions over module code; totality of library calls under these preconditions is assumed; memory/time on huge inputs is not decided.",
 		Trusted: []string{"stdlib functions called by the package neither panic nor diverge when the checked preconditions hold", axTool, axChecker}},
 	{ID: "C15", Title: "Validation errors identify the kind of failure", Level: "proof",
-		Rules:   []string{"ANCHOR", "S2a", "S2e", "S1", "G3", "G3a", "G3e", "L3", "L2w"},
+		Rules:   []string{"ANCHOR", "S2a", "S2e", "S1", "G3", "G3a", "G3e", "L3", "L2w", "T3c"},
 		Floors:  map[string]int{"S2.exits": 100, "S1.sentinels": 3},
 		Explain: "Every exit of CheckMnemonic is classified by the branch edges dominating it: count-reject exits (reached only with counts outside the five) return ErrWordLen; exits on the miss edge of a lookup return a fresh non-nil error whose format consumes the token; after all lookups hit, the unequal edge of the checksum comparison returns ErrChecksumIncorrect and the equal edge is the only return nil; the hash is over exactly ENT/8 bytes so a correct checksum cannot be reported as incorrect.",
 		Trusted: []string{"fmt.Errorf / errors.New never return nil", axTool, axChecker}},
